@@ -420,3 +420,106 @@ pub fn seeded_object_keys(out: &mut Out, rng: &mut Rng) {
         }
     }
 }
+
+
+/// C09 / C10: PwHash object paths where the configuration and the caller's arguments disagree in length
+pub fn pwhash_lengths(out: &mut Out, rng: &mut Rng) {
+    use dryoc::pwhash::{Config, PwHash, VecPwHash};
+    let pw = rng.bytes(9);
+    // derive_keypair is a 32-byte Argon2 output whatever hash_length the configuration carries
+    for hl in [16usize, 32, 64, 100] {
+        let salt: [u8; 16] = rng.arr();
+        let cfg = Config::interactive().with_opslimit(1).with_memlimit(8192).with_hash_length(hl);
+        out.search_evaluations += 1;
+        let kp = guard(|| VecPwHash::derive_keypair::<_, StackByteArray<32>, StackByteArray<32>>(&pw, salt.to_vec(), cfg.clone()));
+        match (kp, sodium::pwhash(32, &pw, &salt, 1, 8192, 2)) {
+            (Outcome::Ok(kp), Some(w)) => { if kp.secret_key.as_array()[..] != w[..] || kp.public_key.as_array() != &sodium::scalarmult_base(&w[..].try_into().unwrap()) { out.hit("pwhash.derive_keypair.differs-from-libsodium-construction", format!("hash_length {}", hl), json!({"op":"obj.PwHash.derive_keypair","pw":hx(&pw),"salt":hx(&salt),"hash_length":hl})); } }
+            (o, _) => out.hit("pwhash.derive_keypair.fails", format!("hash_length {} ({})", hl, o.class()), json!({"hash_length":hl})),
+        }
+    }
+    // hash_with_salt uses the whole salt it is given, and the string names that salt: libsodium verifies it
+    for (sl_cfg, salt_len) in [(16usize, 16usize), (16, 17), (16, 32), (8, 16), (32, 16), (16, 64)] {
+        let salt = rng.bytes(salt_len);
+        let cfg = Config::interactive().with_opslimit(1).with_memlimit(8192).with_salt_length(sl_cfg);
+        out.search_evaluations += 2;
+        let rp = json!({"op":"obj.PwHash.hash_with_salt","pw":hx(&pw),"salt":hx(&salt),"config_salt_length":sl_cfg});
+        match guard(|| { let r: Result<VecPwHash, _> = PwHash::hash_with_salt(&pw, salt.clone(), cfg.clone()); r }) {
+            Outcome::Ok(h) => {
+                let (hash, s2, _) = h.clone().into_parts();
+                if s2 != salt { out.hit("obj.pwhash.hash_with_salt.stores-another-salt", format!("salt of {} bytes", salt_len), rp.clone()); }
+                let mut want = vec![0u8; hash.len()];
+                let w = guard(|| dryoc::classic::crypto_pwhash::crypto_pwhash(&mut want, &pw, &salt, 1, 8192, dryoc::classic::crypto_pwhash::PasswordHashAlgorithm::Argon2id13));
+                if w.is_ok() && want != hash { out.hit("obj.pwhash.hash_with_salt.does-not-use-the-whole-salt", format!("salt of {} bytes, config salt_length {}", salt_len, sl_cfg), rp.clone()); }
+                let st = h.to_string();
+                if st.len() < 128 && !sodium::pwhash_str_verify(&st, &pw) { out.hit("obj.pwhash.to_string.libsodium-rejects", format!("salt of {} bytes, config salt_length {}: {}", salt_len, sl_cfg, st), rp.clone()); }
+                if !guard(|| VecPwHash::from_string(&st).and_then(|p| p.verify(&pw))).is_ok() { out.hit("obj.pwhash.from_string.verify-rejects-own-string", format!("salt of {} bytes", salt_len), rp.clone()); }
+            }
+            o => out.hit("obj.pwhash.hash_with_salt.fails", format!("salt of {} bytes ({})", salt_len, o.class()), rp.clone()),
+        }
+    }
+}
+
+/// C04 (and C09): password-hash records whose hash field is shorter than any hash the crate produces: an error, never a panic
+pub fn short_hash_records(out: &mut Out, rng: &mut Rng) {
+    use dryoc::pwhash::{Config, PwHash, VecPwHash};
+    let pw = rng.bytes(5);
+    for hl in 0usize..=17 {
+        let hash = rng.bytes(hl); let salt = rng.bytes(16);
+        out.search_evaluations += 3;
+        let rp = json!({"op":"obj.PwHash.verify","hash":hx(&hash),"salt":hx(&salt),"hash_length":hl});
+        let h: VecPwHash = PwHash::from_parts(hash.clone(), salt.clone(), Config::interactive().with_opslimit(1).with_memlimit(8192).with_hash_length(hl));
+        let r = guard(|| h.verify(&pw));
+        if r.is_panic() { out.hit("obj.pwhash.verify.panics", format!("stored hash of {} bytes", hl), rp.clone()); }
+        if r.is_ok() { out.hit("obj.pwhash.verify.accepts-wrong-password", format!("stored hash of {} bytes", hl), rp.clone()); }
+        let mut o = vec![0u8; hl];
+        let c = guard(|| dryoc::classic::crypto_pwhash::crypto_pwhash(&mut o, &pw, &salt, 1, 8192, dryoc::classic::crypto_pwhash::PasswordHashAlgorithm::Argon2id13));
+        if c.is_panic() { out.hit("pwhash.panics", format!("output of {} bytes", hl), rp.clone()); }
+        let l = salt[..].try_into().ok().and_then(|s16: [u8; 16]| sodium::pwhash(hl, &pw, &s16, 1, 8192, 2));
+        if c.is_ok() != l.is_some() { out.hit("pwhash.accept-reject-differs-from-libsodium", format!("output of {} bytes: dryoc {} libsodium {}", hl, c.class(), l.is_some()), rp.clone()); }
+        // the same through a string
+        let st = format!("$argon2id$v=19$m=8,t=1,p=1${}${}", b64(&salt), b64(&hash));
+        let r = guard(|| VecPwHash::from_string(&st).and_then(|p| p.verify(&pw)));
+        if r.is_panic() { out.hit("obj.pwhash.from_string+verify.panics", format!("hash field of {} bytes: {}", hl, st), json!({"op":"obj.pwhash.from_string+verify","string":st})); }
+    }
+}
+fn b64(v: &[u8]) -> String {
+    const A: &[u8] = b"ABCDEFGHIJKLMNOPQRSTUVWXYZabcdefghijklmnopqrstuvwxyz0123456789+/";
+    let mut s = String::new();
+    for ch in v.chunks(3) { let n = (ch[0] as u32) << 16 | (*ch.get(1).unwrap_or(&0) as u32) << 8 | *ch.get(2).unwrap_or(&0) as u32;
+        s.push(A[(n >> 18) as usize & 63] as char); s.push(A[(n >> 12) as usize & 63] as char); if ch.len() > 1 { s.push(A[(n >> 6) as usize & 63] as char); } if ch.len() > 2 { s.push(A[n as usize & 63] as char); } }
+    s
+}
+
+/// C06 / C08: the two signing modes do not cross over, and the incremental signer ignores how the message was cut
+pub fn sign_modes_and_chunks(out: &mut Out, rng: &mut Rng) {
+    use dryoc::classic::crypto_sign::*;
+    use dryoc::sign::IncrementalSigner;
+    for len in [0usize, 1, 64, 200] {
+        let seed: [u8; 32] = rng.arr();
+        let (pk, sk) = sodium::sign_seed_keypair(&seed);
+        let m = rng.bytes(len);
+        let rp = json!({"op":"sign.modes","seed":hx(&seed),"msg":hx(&m)});
+        // a pure signature over SHA-512(m) is not a pre-hashed signature of m
+        let digest = sodium::sha512(&m);
+        let pure_over_digest = sodium::sign_detached(&digest, &sk);
+        out.search_evaluations += 3;
+        let lib = sodium::sign_ph_verify(&[&m[..]], &pure_over_digest, &pk);
+        let d = guard(|| { let mut st = crypto_sign_init(); crypto_sign_update(&mut st, &m); crypto_sign_final_verify(st, &pure_over_digest, &pk) });
+        if d.is_ok() != lib || d.is_panic() { out.hit("sign.ph.verify-accepts-pure-signature-over-the-digest", format!("len {}: dryoc {} libsodium {}", len, d.class(), lib), rp.clone()); }
+        let o = guard(|| { let mut s = IncrementalSigner::new(); s.update(&m); s.verify(&StackByteArray::<64>::from(&pure_over_digest), &StackByteArray::<32>::from(&pk)) });
+        if o.is_ok() != lib || o.is_panic() { out.hit("obj.sign.incremental.verify-accepts-pure-signature-over-the-digest", format!("len {}", len), rp.clone()); }
+        // every way of cutting the message, empty pieces anywhere (last included)
+        let want = sodium::sign_ph(&[&m[..]], &sk);
+        let cut = if len == 0 { 0 } else { rng.below(len as u64 + 1) as usize };
+        let e: Vec<u8> = vec![];
+        let parts: Vec<Vec<Vec<u8>>> = vec![vec![m.clone()], vec![m[..cut].to_vec(), m[cut..].to_vec()], vec![m.clone(), e.clone()], vec![e.clone(), m.clone()], vec![m[..cut].to_vec(), e.clone(), m[cut..].to_vec(), e.clone()]];
+        for ps in parts {
+            out.search_evaluations += 2;
+            let sizes: Vec<usize> = ps.iter().map(|p| p.len()).collect();
+            let f = guard(|| { let mut s = IncrementalSigner::new(); for p in ps.iter() { s.update(p); } let sg: StackByteArray<64> = s.finalize(&StackByteArray::<64>::from(&sk))?; Ok::<_, dryoc::Error>(sg.to_vec()) });
+            if f.ok().as_deref() != Some(&want[..]) { out.hit("obj.sign.incremental.differs-by-chunking", format!("pieces {:?}", sizes), json!({"op":"obj.IncrementalSigner","seed":hx(&seed),"msg":hx(&m),"pieces":sizes})); }
+            let v = guard(|| { let mut s = IncrementalSigner::new(); for p in ps.iter() { s.update(p); } s.verify(&StackByteArray::<64>::from(&want), &StackByteArray::<32>::from(&pk)) });
+            if !v.is_ok() { out.hit("obj.sign.incremental.verify-differs-by-chunking", format!("pieces {:?} ({})", sizes, v.class()), json!({"op":"obj.IncrementalSigner.verify","seed":hx(&seed),"msg":hx(&m),"pieces":sizes})); }
+        }
+    }
+}
